@@ -75,6 +75,10 @@ def run_unguarded(trace, render=None):
                 conn_id = 'gdb_conn:' + hex(addr_int(ev['addr']))
                 bp.message_extractor = lambda conn_id=conn_id, msg=msg: (conn_id, msg)
                 obs['halt'] = bool(bp.stop())
+            elif ev['e'] == 'exit':
+                # the debugged program exits: whatever the plugin has connected to gdb.events.exited is called
+                gdb.fire('exited', exit_code=0)
+                obs['halt'] = False
             elif ev['e'] == 'destroy':
                 gdb.frame_vars['connection'] = addr_int(ev['addr'])
                 obs['halt'] = bool(bps['wl_connection_destroy'].stop())
